@@ -3,7 +3,7 @@
    the plain and compact entry records.  The walk over the enclosing chunks and the listings built from the entries are
    checked by the oracle on generated tables; reference resolution is C29, locales are C30. *)
 From Coq Require Import ZArith List Bool.
-Require Import V.Lib.Val V.Lib.Result V.Lib.Struct V.Axml.PoolModel V.Axml.ArscTypeModel V.Axml.ArscTypeProofs.
+Require Import V.Lib.Val V.Lib.Result V.Lib.Struct V.Axml.PoolModel V.Axml.ArscTypeModel V.Axml.ArscTypeProofs V.Axml.ArscComplex.
 Require V.Axml.ArscTableModel.   (* the stream table-walk of tools/props/c28.py evaluates the model of the walk over the table *)
 Import ListNotations.
 Open Scope Z_scope.
@@ -35,6 +35,15 @@ Theorem C28_compact_entry_is_read_as_stored : forall pre key ty data rest endp r
   Ok {| e_id := rid; e_size := key; e_flags := 8 + 256 * ty; e_index := data; e_payload := Compact key data ty |}.
 Proof. exact compact_entry_exact. Qed.
 Print Assumptions C28_compact_entry_is_read_as_stored.
+
+(* a complex entry (style, array, plurals ...: parent, count, then name / Res_value pairs) at any position of any file *)
+Theorem C28_complex_entries_are_read_back : forall pre size flags index parent items rest endp rid,
+  0 <= size < 65536 -> 0 <= flags < 65536 -> Z.land flags 1 = 1 -> 0 <= index < 4294967296 -> 0 <= parent < 4294967296 ->
+  Forall wf_item items -> Z.of_nat (length items) < 4294967296 -> len pre + 16 + 12 * Z.of_nat (length items) <= endp ->
+  parse_entry (pre ++ b16 size ++ b16 flags ++ b32 index ++ b32 parent ++ b32 (Z.of_nat (length items)) ++ flat_map item_bytes items ++ rest) (len pre) endp rid =
+  Ok {| e_id := rid; e_size := size; e_flags := flags; e_index := index; e_payload := Complex parent (Z.of_nat (length items)) items |}.
+Proof. exact complex_entry_exact. Qed.
+Print Assumptions C28_complex_entries_are_read_back.
 
 Example C28_nonvacuous :
   present 2130771968 0 [Some 0; None; Some 16] = [(0, 2130771968); (16, 2130771970)] /\
